@@ -14,7 +14,7 @@ def jobs(tier):
         out += [RQ(3600, 7200, 5), RQ(2700, 8100, 5)]
     else:
         # 7 grid points (RQ(2700, 8100, 7), RQ(2400, 7200, 7)) are not registered: a query ran past its limit / 30 min were not enough
-        out += [RQ(3600, 7200, 6), RQ(2700, 8100, 6), RQ(3000, 6000, 6), RQ(2400, 7200, 6), RQ(3600, 7200, 5, gran=500), RQ(7200, 7200, 5)]
+        out += [RQ(3600, 7200, 6), RQ(2700, 8100, 6), RQ(3000, 6000, 6), RQ(2400, 7200, 6), RQ(3600, 7200, 5, gran=500)]  # RQ(7200, 7200, 5): one solver query runs past its limit, not registered
     if tier == "quick":
         for (st, sl) in [(60, 120), (60, 180), (420, 840), (3600, 7200)]:
             out.append(J(st, sl, 5, 1, 0))
